@@ -280,7 +280,10 @@ func variants(b behav.Behaviour, mode string, seed int64, idx int) []Profile {
 	if mode == "fwd" {
 		out = append(out, Profile{Str: "ascii", Int: "id", Seed: seed})
 		if hasStr {
-			for _, sp := range StrProfileNames[1:] {
+			for i, sp := range StrProfileNames[1:] {
+				if !behav.Thorough() && (h+i)%5 >= 3 {
+					continue // quick tier: three of the five non-ASCII profiles per behaviour
+				}
 				out = append(out, Profile{Str: sp, Int: "id", Seed: seed})
 			}
 		}
@@ -289,7 +292,8 @@ func variants(b behav.Behaviour, mode string, seed int64, idx int) []Profile {
 		}
 		return out
 	}
-	if behav.Thorough() {
+	few := !behav.Thorough() || behav.EnvInt("VERIF_FEW_VARIANTS", 0) == 1
+	if !few {
 		for s := 0; s < NStyles; s++ {
 			out = append(out, Profile{Str: "ascii", Int: "id", Style: s, Seed: seed})
 		}
@@ -301,8 +305,11 @@ func variants(b behav.Behaviour, mode string, seed int64, idx int) []Profile {
 	}
 	if hasStr {
 		for i, sp := range StrProfileNames[1:] {
+			if few && (h+i)%5 >= 3 {
+				continue // three of the five non-ASCII profiles per behaviour
+			}
 			out = append(out, Profile{Str: sp, Int: "id", Style: (h + i) % NStyles, Seed: seed})
-			if behav.Thorough() {
+			if !few {
 				out = append(out, Profile{Str: sp, Int: "id", Style: (h + i + 2) % NStyles, Seed: seed})
 			}
 		}
